@@ -84,6 +84,7 @@ type Contract struct {
 	Props    []string          // properties this contract serves
 	Witness  map[string]map[string]Expr // clause label -> bound variable -> witness expression
 	Skips    []SkipClause
+	ParamNames []string // names for the parameters of function-typed fields / unnamed signatures
 	Invokes  []string  // function-typed parameters the function calls at most once (higher-order protocol)
 	Callback []*Clause // assumed after every dynamic (user callback) call inside the function (A-user)
 	File     string
@@ -577,7 +578,7 @@ var clauseKeywords = map[string]bool{
 	"modifies": true, "loop": true, "panics": true, "trusted": true, "lemma": true,
 	"axiom": true, "inline": true, "returns": true, "props": true, "noframe": true,
 	"K": true, "F": true, "guarded": true, "hyp": true, "concl": true, "vars": true,
-	"opaque": true, "uninterp": true, "witness": true, "skip": true, "callback": true, "invokes": true,
+	"opaque": true, "uninterp": true, "witness": true, "skip": true, "callback": true, "invokes": true, "params": true,
 }
 
 type rawLine struct {
@@ -716,6 +717,13 @@ func readSpecFile(path string) (*SpecFile, error) {
 				cur.Ensures = append(cur.Ensures, c)
 			case "modifies":
 				cur.Modifies = append(cur.Modifies, c)
+			}
+		case "params":
+			if cur == nil {
+				return nil, fail(rl, "params outside func")
+			}
+			for _, n := range strings.Split(strings.Trim(rest, "() "), ",") {
+				cur.ParamNames = append(cur.ParamNames, strings.TrimSpace(n))
 			}
 		case "invokes":
 			if cur == nil {
